@@ -304,6 +304,9 @@ Qed.
 
 Lemma loop_check_is_3 : loop_check_init = 3%nat.
 Proof. vm_compute. reflexivity. Qed.
+(* the reflected Parser.LOOP_CHECK is the documented depth *)
+Lemma loop_check_as_documented : loop_check_init = doc_depth.
+Proof. vm_compute. reflexivity. Qed.
 
 (* at most LOOP_CHECK elements are loaded: the program element and LOOP_CHECK - 1 = 2 models;
    the reference held by the second model is looked up but its target is not loaded *)
@@ -1407,7 +1410,7 @@ Proof.
   unfold program_chain in Hc.
   destruct (spec_program_select d o app proc) as [sel|] eqn:Esel; [|discriminate].
   fold (spec_record (aliases_of d)
-          (match sel with Some (e, _) => spec_chain d e loop_check_init | None => [] end)
+          (match sel with Some (e, _) => spec_chain d e doc_depth | None => [] end)
           (match sel with Some (_, b) => b | None => false end) sfs0 rfs0) in Hs.
   inversion Hs as [Hr]. clear Hs.
   unfold spec_program_select in Esel.
@@ -1420,7 +1423,7 @@ Proof.
         [apply named_apps_in_items|apply patterned_apps_in_items]; exact H. }
     rewrite (prog_select_refines d o app proc e ps sel (Hprog e ps Hin) Hga Esel). simpl.
     destruct sel as [[x b]|]; simpl.
-    + rewrite load_model_rules_chain, (chain_refines d Hmod). f_equal. apply deps_refine. exact Hc.
+    + rewrite load_model_rules_chain, (chain_refines d Hmod), loop_check_as_documented. f_equal. apply deps_refine. exact Hc.
     + f_equal; apply (deps_refine (aliases_of d) [] false sfs0 rfs0); reflexivity.
   - inversion Esel; subst. rewrite (prog_no_application d o app proc Hga). simpl.
     f_equal; apply (deps_refine (aliases_of d) [] false sfs0 rfs0); reflexivity.
@@ -1607,3 +1610,48 @@ Proof.
   eexists. eexists. split; [vm_compute; reflexivity|]. split; [vm_compute; reflexivity|].
   vm_compute. repeat split.
 Qed.
+
+(* ================================================================ resolution vs spec_resolve (partial) *)
+Lemma filter_nil_all : forall {A} (f : A -> bool) l, (forall x, In x l -> f x = false) -> filter f l = [].
+Proof.
+  intros A f l. induction l as [|a l IH]; intros H; simpl; auto.
+  rewrite (H a (or_introl eq_refl)). apply IH. intros x Hx. apply H. right; exact Hx.
+Qed.
+
+Lemma in_sorted_procs : forall ps kp, In kp (sorted_procs ps) -> In (snd kp) ps.
+Proof.
+  intros ps [k p] H. assert (Hin : In (k, p) (enumerate ps)) by (eapply Permutation_in; [apply sorted_procs_perm|exact H]).
+  unfold enumerate in Hin. apply in_combine_r in Hin. exact Hin.
+Qed.
+
+(* a group in which no process waits on a sign is left exactly as it is (and nothing can raise) *)
+Theorem resolve_no_sign_unchanged : forall ev g,
+  no_sign (gr_procs g) = true ->
+  exists g', resolve_rules ev g = Ok g' /\ group_obs g' = group_obs g
+             /\ spec_resolve ev (gr_procs g) = Some (group_obs g).
+Proof.
+  intros ev g H. unfold no_sign in H. rewrite forallb_forall in H.
+  assert (Hat : filter (fun kp => negb (is_nil (i_at (g_idt (snd kp))))) (sorted_procs (gr_procs g)) = []).
+  { apply filter_nil_all. intros kp Hkp. apply in_sorted_procs in Hkp. specialize (H _ Hkp).
+    apply andb_prop in H. destruct H as (H & _). rewrite H. reflexivity. }
+  assert (Hh : filter (fun kp => negb (is_nil (i_hash (g_idt (snd kp))))) (sorted_procs (gr_procs g)) = []).
+  { apply filter_nil_all. intros kp Hkp. apply in_sorted_procs in Hkp. specialize (H _ Hkp).
+    apply andb_prop in H. destruct H as (_ & H). rewrite H. reflexivity. }
+  assert (Hplan : at_plan ev g = []) by (unfold at_plan; rewrite Hat; reflexivity).
+  assert (Hspec : spec_resolve ev (gr_procs g) = Some (group_obs g)).
+  { unfold spec_resolve, no_sign. assert (forallb _ (gr_procs g) = true) as -> by (apply forallb_forall; exact H).
+    reflexivity. }
+  unfold resolve_rules.
+  assert (Ha : assign_at ev g = mkGroup (gr_procs g) (gr_at g) (gr_hash g)) by (unfold assign_at; rewrite Hplan; reflexivity).
+  destruct (truthy (gr_at g)).
+  - rewrite Ha. cbn [gr_hash]. destruct (truthy (gr_hash g)).
+    + unfold assign_hash. cbn [gr_procs gr_hash]. rewrite Hh. eexists. split; [reflexivity|]. split; [reflexivity|exact Hspec].
+    + eexists. split; [reflexivity|]. split; [reflexivity|exact Hspec].
+  - destruct (truthy (gr_hash g)).
+    + unfold assign_hash. rewrite Hh. eexists. split; [reflexivity|]. split; [reflexivity|exact Hspec].
+    + eexists. split; [reflexivity|]. split; [reflexivity|exact Hspec].
+Qed.
+(* NOT PROVED (resolution_refines_spec): that resolve_rules yields exactly spec_at / spec_hash_fresh on uniform groups.
+   What is proved about them: assign_at_injective_bounded, assign_hash_round_robin (the plans, as functional
+   specifications on lists), resolve_rules_total, resolve_no_sign_unchanged. The equality with spec_resolve is
+   checked on every generated case by spec_violations (model = implementation = spec on the same inputs). *)
